@@ -1,6 +1,7 @@
 //! Comparison of hardware and emulator post-states, attribution to properties, the engine-A monitor.
 use super::gen::*;
 use super::*;
+use ax_x86::axecutor::Axecutor;
 use crate::sup::*;
 use iced_x86::{Code, Instruction, Mnemonic, OpKind, Register};
 use serde_json::json;
@@ -461,7 +462,11 @@ pub struct HwMonitor {
 
 pub const CODE_RIP: u64 = CODE + 0x1000 - 0x40;
 
-fn reports(prop: &str, fam: Family, class: Class) -> bool {
+fn is_address_probe(ins: &Instruction) -> bool {
+    has_mem_operand(ins) && matches!(ins.mnemonic(), Mnemonic::Lea | Mnemonic::Mov | Mnemonic::Movzx | Mnemonic::Movsxd | Mnemonic::Movups | Mnemonic::Movd)
+}
+
+fn reports(prop: &str, fam: Family, ins: &Instruction, class: Class) -> bool {
     use Class::*;
     match prop {
         "C01" => matches!(fam, Family::Data | Family::Cpuid) && matches!(class, Gpr | Xmm | Mem | Seg | Rip),
@@ -476,7 +481,7 @@ fn reports(prop: &str, fam: Family, class: Class) -> bool {
             Family::CallRet => matches!(class, Gpr | Xmm | Mem | Seg | Flags),
             _ => false,
         },
-        "C05" => matches!(class, Gpr | Xmm | Mem | Rip | Seg | SpuriousErr | Panic | MissedFault),
+        "C05" => is_address_probe(ins) && matches!(class, Gpr | Xmm | Mem | Rip | Seg | SpuriousErr | Panic),
         "C06" => matches!(class, MissedFault | SpuriousErr | Panic),
         "census" => false,
         _ => false,
@@ -507,31 +512,47 @@ impl HwMonitor {
         self.child.as_mut()
     }
 
+    pub fn child_base(&mut self, col: &mut Collector) -> Option<Vec<Vec<u8>>> {
+        self.child(col).map(|c| c.base.clone())
+    }
+
     /// Runs one trial on both sides and books the outcome. Returns the emulator/hardware outcome.
     pub fn run_trial(&mut self, col: &mut Collector, ins: &Instruction, st: &Steered, stratum: &str) -> Option<Outcome> {
+        self.run_trial_core(col, ins, &st.trial, stratum, None).0
+    }
+
+    /// `existing`: step this (free-running) machine instead of a fresh mirror; it is handed back.
+    pub fn run_trial_core(&mut self, col: &mut Collector, ins: &Instruction, t: &Trial, stratum: &str, existing: Option<Axecutor>) -> (Option<Outcome>, Option<Axecutor>) {
+        let (o, mut emu) = self.run_trial_impl(col, ins, t, stratum, existing);
+        (o, emu.as_mut().and_then(|e| e.ax.take()))
+    }
+
+    fn run_trial_impl(&mut self, col: &mut Collector, ins: &Instruction, t: &Trial, stratum: &str, existing: Option<Axecutor>) -> (Option<Outcome>, Option<EmuPost>) {
         let prop = self.prop;
-        let t = &st.trial;
         let fam = family(ins.mnemonic());
         if matches!(fam, Family::Os | Family::Unsupported) {
             col.count("skipped_os_or_unsupported", 1);
-            return None;
+            return (None, None);
         }
         let form = code_name(ins);
-        let child = self.child(col)?;
+        let Some(child) = self.child(col) else { return (None, None) };
         if let Err(e) = child.prepare(t) {
             col.count("hw_errors", 1);
             col.set_insert("hw_error_msgs", &e.0);
             self.child = None;
-            return None;
+            return (None, None);
         }
-        let emu = run_emu(t, &child.shadow);
+        let emu = match existing {
+            Some(ax) => step_existing(ax, t),
+            None => run_emu(t, &child.shadow),
+        };
         let hw = match child.step(t) {
             Ok(h) => h,
             Err(e) => {
                 col.count("hw_errors", 1);
                 col.set_insert("hw_error_msgs", &e.0);
                 self.child = None;
-                return None;
+                return (None, Some(emu));
             }
         };
         col.eval(1);
@@ -584,7 +605,7 @@ impl HwMonitor {
             if !repro {
                 col.count("hw_nonreproducible", 1);
                 child.commit();
-                return None;
+                return (None, Some(emu));
             }
             // known deviations
             let mut known: Option<&'static str> = None;
@@ -604,7 +625,7 @@ impl HwMonitor {
             let mut any_reported = false;
             for d in diffs {
                 col.count(&format!("disagree_{:?}", d.class), 1);
-                if !reports(prop, fam, d.class) {
+                if !reports(prop, fam, ins, d.class) {
                     col.count("disagreements_owned_by_other_property", 1);
                     continue;
                 }
@@ -613,7 +634,7 @@ impl HwMonitor {
                     Some(k) => format!("K:{}", k),
                     None => {
                         let base = format!("{:?}:{}:{}", d.class, form, d.key);
-                        if matches!(d.class, Class::SpuriousErr | Class::Panic) && prop == "C06" {
+                        if matches!(d.class, Class::SpuriousErr | Class::Panic) && (prop == "C06" || prop == "C05") {
                             format!("?impl:{}|{}", form, base)
                         } else {
                             base
@@ -644,7 +665,7 @@ impl HwMonitor {
             out = Outcome::Disagree(diffs.clone());
         }
         child.commit();
-        Some(out)
+        (Some(out), Some(emu))
     }
 
     fn decode_and_run(&mut self, col: &mut Collector, rng: &mut Rng, bytes: &[u8], so: &SteerOpts, stratum: &str, want_code: Option<Code>) -> Option<Outcome> {
